@@ -11,6 +11,7 @@ from disp import *
 from symex import SymEx, skip_logging, term_str_v, cond_map
 
 HANDLER_POLL = "ntex_service::ServiceCtx::<'a, S>::call::{closure#0}"
+WIDE = re.compile(TRANSPARENT_CALLS.pattern[:-2] + r'|new|branch|map_err|map|ok|from_residual)$')
 
 
 def path_facts(d, p, b, ack_sites):
@@ -81,6 +82,21 @@ def publish_fn_rules(F, R, d):
         if f['outcome'] == 'err' and not (d.name == 'v5-server' and f['try_ack'] == 'ok'):
             R.ob('C03.ack-after-handler', '%s|publish_fn|handler-error=>Err|try_ack=%s' % (d.name, f['try_ack']), f['ret'] == 'Err' and not f['acks'],
                  'a failing handler does not end in Err (returns %s, acks %s)' % (f['ret'], f['acks']))
+    # ack carries the request's id and (v5) the handler's verdict
+    for bi, j, st in agg_sites(b, r'^v5::codec::packet::pubacks::PublishAck$') + [x for x in agg_sites(b, r'^%s$' % re.escape(d.packet)) if d.ver == 'v3' and x[2]['rv']['variant'] in ('PublishAck', 'PublishReceived')]:
+        names = st['rv']['names']
+        kind = 'ack@' + ('qos2' if any(bi in b.reachable_after(x) or x == bi for x, k in ack_sites if k == 'PublishReceived') and not any(x == bi for x, k in ack_sites if k == 'PublishAck') else 'any')
+        for fname, fop in zip(names, st['rv']['fields']):
+            og = Origin(b, transparent=WIDE).of_operand(fop)
+            if fname == 'packet_id':
+                ok = any(l[0] == 'arg' for l in og) and not any(l[0] == 'const' for l in og)
+                R.ob('C03.ack-fields', '%s|publish_fn|%s.packet_id' % (d.name, st['rv']['adt'].split('::')[-1] + ('::' + st['rv']['variant'] if d.ver == 'v3' else '')), ok,
+                     'the acknowledgement does not carry the packet id of the request (origin %s)' % sorted(map(str, og))[:3], b.loc(bi))
+            elif fname in ('reason_code', 'reason_string', 'properties'):
+                from_handler = any(l[0] == 'call' and (HANDLER_POLL in l[1] or 'try_ack' in l[1]) for l in og) or any(l[0] == 'resume' for l in og)
+                defaulted = any(l[0] == 'call' and 'default' in l[1].lower() for l in og) or any(l[0] in ('const', 'agg') and l[0] == 'agg' and 'Reason' in l[1] for l in og)
+                R.ob('C03.ack-fields', '%s|publish_fn|PublishAck.%s|from-handler|%s' % (d.name, fname, field_site_label(b, bi, ack_sites)), from_handler and not defaulted,
+                     'the %s of the acknowledgement does not come from the handler result / try_ack (origin %s): a negative verdict would be written as success' % (fname, sorted({l[1] if len(l) > 1 else l[0] for l in og if l[0] in ('call', 'agg')})[:3]), b.loc(bi))
     # client control path: PublishAck constructors offered to the application must depend on the QoS
     if d.role == 'client':
         mod = d.mod.replace('dispatcher', 'control')
@@ -92,6 +108,19 @@ def publish_fn_rules(F, R, d):
                 if has_ack:
                     R.ob('C03.ack-kind', '%s|%s|PublishAck|qos-tested' % (d.name, fn.path), bool(tests_qos),
                          'the control-message acknowledgement for an inbound PUBLISH is always PUBACK, also for QoS 2')
+
+
+def field_site_label(b, bi, ack_sites):
+    """Which ack packet the struct feeds: PublishReceived / PublishAck (by reachability to the wrapping Packet aggregate)."""
+    labs = sorted({k for x, k in ack_sites if x == bi or x in b.reachable_after(bi)})
+    pr = [k for x, k in ack_sites if x == bi]
+    if pr:
+        return pr[0]
+    # nearest: the first ack site reachable without passing another PublishAck struct construction
+    for x, k in ack_sites:
+        if x in b.reachable_after(bi, avoid=[y for y, kk in ack_sites if y != x]):
+            return k
+    return '+'.join(labs) or '?'
 
 
 PUBCOMP_ALLOWED = [
